@@ -120,11 +120,11 @@ class H(explore.Harness):
 
             self._zmod, self._orig_info = zmod, zmod.AsyncServiceInfo
             zmod.AsyncServiceInfo = _CachedInfo
-        if self.kind in ("ip", "agg"):
+        if self.kind in ("ip", "agg", "ipcoap", "coapip"):
             from aiohomekit.controller.ip.controller import IpController
 
             self.ctrls["ip"] = IpController(char_cache=cache, zeroconf_instance=None)
-        if self.kind == "coap":
+        if self.kind in ("coap", "ipcoap", "coapip"):
             from aiohomekit.controller.coap.controller import CoAPController
 
             self.ctrls["coap"] = CoAPController(char_cache=cache, zeroconf_instance=None)
@@ -139,8 +139,13 @@ class H(explore.Harness):
             self.agg = Controller(char_cache=cache)
             self.agg.transports = {TransportType.IP: self.ctrls["ip"], TransportType.BLE: self.ctrls["ble"]}
             self.target = self.agg
+        elif self.kind in ("ipcoap", "coapip"):
+            # two independent controllers in one process (each with its own zeroconf type): callers wait on the FIRST one, advertisements arrive
+            # at both.  What the neighbour hears is none of this controller's business.
+            self.target = self.ctrls[{"ipcoap": "ip", "coapip": "coap"}[self.kind]]
         else:
             self.target = self.ctrls[self.kind]
+        self.target_vias = {"agg": {"ip", "ble"}, "ipcoap": {"ip"}, "coapip": {"coap"}}.get(self.kind, {self.kind})
         if p.get("browser"):
             h = self
 
@@ -254,7 +259,8 @@ class H(explore.Harness):
         if kind == "zc-add":
             props, v = self._props(dev_id, 0)
             self.zc_cache[name] = svc_info(hap, dev_id, props=props, name=f"Acc{IDS.index(dev_id)}", **({"addresses": (address,)} if address else {}))
-            self.may_find.add(dev_id)  # from now on a waiter may legitimately complete (the record is in the cache)
+            if via in self.target_vias:
+                self.may_find.add(dev_id)  # from now on a waiter may legitimately complete (the record is in the cache)
             if name not in self.model_resolve and via in self.started:
                 # the browser path may debounce: the record MUST have been processed DEBOUNCE_MAX after the state change (the code uses 0.5 s;
                 # the property does not fix the delay, so only an upper bound is demanded and earlier completion is fine).  Only once the
@@ -274,7 +280,7 @@ class H(explore.Harness):
         for name, (due, dev_id, via, v) in list(self.model_resolve.items()):
             if due <= now + 1e-9:
                 del self.model_resolve[name]
-                if name in self.zc_cache:
+                if name in self.zc_cache and via in self.target_vias:
                     self.discovered.setdefault(dev_id, now)
                     self.last_adv[(dev_id, via)] = v
                     for w in self.waiters:
@@ -348,7 +354,7 @@ class H(explore.Harness):
                 self._adv(dev_id, k == "adv", via)
             except Exception as e:  # noqa: BLE001
                 self.viol.append((f"detection-callback-raises:{type(e).__name__}:{via}:{'valid' if k == 'adv' else 'malformed'}:pairing={self.mode}", {"err": str(e)[:200], "t": now}))
-            if k == "adv":
+            if k == "adv" and via in self.target_vias:
                 self.discovered.setdefault(dev_id, now)
                 for w in self.waiters:
                     if w["id"] == dev_id and not w["task"].done() and not w.get("cancel_requested") and "adv_at" not in w:
@@ -696,6 +702,8 @@ def run(ctx):
         dict(kind="ble", pairing="cached", waiters=2, ids=1, P=1),
         dict(kind="ble", pairing="nocache", waiters=1, ids=1, P=0),
         dict(kind="agg", pairing="none", waiters=2 if not quick else 1, ids=1, P=1 if not quick else 0),
+        dict(kind="ipcoap", pairing="none", waiters=1, ids=1, P=0),
+        dict(kind="coapip", pairing="none", waiters=1, ids=1, P=0),
     ]
     configs += [
         # re-advertisements that differ only in flags / category; what the controller reports must follow
